@@ -22,6 +22,7 @@ the original presentation of an input against
             `perm#2`, `perm#3` ... are further independent random permutations),
    hv2    : hydrogens named in the PDB v2 style (digit first: HB2 -> 2HB, HD11 -> 1HD1, H1 -> 1H),
    hter   : hydrogens of the first residue of every chain H1/H2/H3 -> HT1/HT2/HT3 (CHARMM style),
+   origin : a pure translation that puts one heavy atom exactly on (0, 0, 0)
    rotfar : rot90 with a translation after which the coordinates use all eight columns of their fields on every axis
             (up to 9995.xxx, down to -995.xxx, or lying across 1000.000 / -100.000),
    structure `<name>@alt`: the structure with alternate-location records (A and, displaced, B) for a few atoms; the
@@ -1060,8 +1061,8 @@ T1 = {
 
 QUICK = [
     # (structure, option set, transformations, hash seeds)
-    ('beta', 'm3-elastic-cys', ['perm', 'perm#2', 'permrev', 'hren', 'hv2', 'rot90', 'rotfar', 'rotgen', 'crlf'], [0, 1, 12345]),
-    ('trp', 'm3-posres', ['perm', 'permh', 'rot90', 'all', 'all2'], []),
+    ('beta', 'm3-elastic-cys', ['perm', 'perm#2', 'permrev', 'hren', 'hv2', 'rot90', 'rotfar', 'rotgen', 'crlf', 'origin', 'origin#2', 'origin#3'], [0, 1, 12345]),
+    ('trp', 'm3-posres', ['perm', 'permh', 'rot90', 'all', 'all2', 'origin'], []),
     ('helix', 'm22', ['perm', 'hren', 'hv2', 'hter', 'rotfar'], [7]),
     ('dipro', 'm3-nt', ['perm', 'permrev', 'hren', 'hname', 'hter', 'rot90', 'rotgen', 'crlf'], [0, 1, 2, 3]),
     ('trp', 'eln22', ['all', 'all2', 'rotgen', 'rotgen#2'], []),
@@ -1089,7 +1090,7 @@ QUICK = QUICK + QUICK_MC
 def thorough_matrix():
     m = []
     core = ['perm', 'permrev', 'hren', 'hv2', 'rotfar', 'rotgen', 'all', 'all2']
-    more = ['perm#2', 'permh', 'hname', 'hter', 'rot90', 'crlf']
+    more = ['perm#2', 'permh', 'hname', 'hter', 'rot90', 'crlf', 'origin', 'origin#2']
     mc_only = ('m3-merge-all', 'm3-merge-2', 'm3-eunit-all', 'm3-sep', 'm3-merge-all-eunit-chain', 'm22-merge-2')
     for s in T0:
         for o in OPTSETS:
@@ -1236,6 +1237,16 @@ def make_transform(kind, recs, rng):
         recs = t_move_exact(recs, A, t)
         motion = ('exact', A, t)
         desc['A'], desc['t'] = A, t
+    if kind == 'origin':
+        # a pure translation that puts one heavy atom EXACTLY on the origin: [0, 0, 0] is a legal position
+        # (a truthiness test on a position array treats it as 'no position')
+        A = [[1, 0, 0], [0, 1, 0], [0, 0, 1]]
+        heavy = [r for r in recs if isinstance(r, dict) and not is_h(r)]
+        a = heavy[rng.randrange(len(heavy))]
+        t = [-c for c in a['xyz']]
+        recs = t_move_exact(recs, A, t)
+        motion = ('exact', A, t)
+        desc['A'], desc['t'], desc['atom_at_origin'] = A, t, a.get('name')
     if kind == 'rotgen':
         R = rot_generic(rng)
         t = [rng.uniform(-20000, 20000) for _ in range(3)]
